@@ -566,6 +566,12 @@ func (tr *FnTrans) copyRange(et types.Type, from *Heap, dstArr, dstOff, srcArr, 
 	}
 	tr.fact(fmt.Sprintf("(forall ((j Int)) (! (=> (and (<= %s j) (< j (+ %s %s))) (= (select %s j) (select (select %s %s) (+ (- j %s) %s)))) :pattern ((select %s j))))",
 		dstOff, dstOff, n, inner, old, srcArr, dstOff, srcOff, inner))
+	if tr.fc != nil && tr.fc.ForwardFrames {
+		// the same statement indexed by the source position (instantiated by
+		// reads of the source: carries witnesses from the source to the copy)
+		tr.fact(fmt.Sprintf("(forall ((i Int)) (! (=> (and (<= %s i) (< i (+ %s %s))) (= (select %s (+ (- i %s) %s)) (select (select %s %s) i))) :pattern ((select (select %s %s) i))))",
+			srcOff, srcOff, n, inner, srcOff, dstOff, old, srcArr, old, srcArr))
+	}
 	// ground instance for the first copied element (gives E-matching a term
 	// for the element an append just wrote)
 	tr.fact(sImp(sLe("1", n), sEq(sSel(inner, dstOff), sSel(sSel(old, srcArr), srcOff))))
